@@ -59,18 +59,18 @@ MUT={
  'c03-m8-failure-element-ignored-by-client': ('C03', lambda: sub('sasl.go','''		return nil, false, fail
 	default:''','''		return nil, true, nil
 	default:''')),
- 'c03-m9-plus-offer-counts-as-bare': ('C03', lambda: (sub('sasl.go','''			if name == m.Name {
+ 'c03-m9-plus-offer-counts-as-bare': ('C03', lambda: sub('sasl.go','''			if name == m.Name {
 				selected = m
 				break selectmechanism''','''			if name == m.Name || strings.TrimSuffix(name, "-PLUS") == m.Name {
 				selected = m
-				break selectmechanism'''), sub('sasl.go','''	"io"
-''','''	"io"
-	"strings"
-'''))),
- 'c03-m10-case-insensitive-mechanism-names': ('C03', lambda: (sub('sasl.go','''				if selection.Name == m.Name {''','''				if strings.EqualFold(selection.Name, m.Name) {'''), sub('sasl.go','''	"io"
-''','''	"io"
-	"strings"
-'''))),
+				break selectmechanism''')),
+ 'c03-m10-case-insensitive-mechanism-names': ('C03', lambda: sub('sasl.go','''				if selection.Name == m.Name && serverSupported(m) {''','''				if strings.EqualFold(selection.Name, m.Name) && serverSupported(m) {''')),
+ 'c03-m14-plus-mechanisms-advertised': ('C03', lambda: sub('sasl.go','''				if !serverSupported(m) {
+					continue
+				}''','''				if !serverSupported(m) && len(mechanisms) > 1 {
+					continue
+				}''')),
+ 'c03-m15-plus-mechanisms-accepted': ('C03', lambda: sub('sasl.go','''				if selection.Name == m.Name && serverSupported(m) {''','''				if selection.Name == m.Name {''')),
  'c03-m11-auth-flush-error-dropped': ('C03', lambda: sub('sasl.go','''	err = w.Flush()
 	if err != nil {
 		return mask, nil, err
